@@ -1,7 +1,7 @@
 INIT Init
 NEXT Next
 CONSTANTS
-  MaxL = 160
+  MaxL = 100
   Variant = "design"
   Pairing = "cross"
   Only = {}
